@@ -2,6 +2,8 @@
 //! one case per line on stdin and prints exactly one canonical result line per case on stdout.
 use std::io::{BufRead, Write};
 
+mod codec;
+mod prog;
 mod pure;
 mod ring;
 mod util;
@@ -17,6 +19,8 @@ fn main() {
     let f: fn(&str) -> String = match cmd {
         "pure" => pure::run_line,
         "ring" => ring::run_line,
+        "prog" => prog::run_line,
+        "codec" => codec::run_line,
         _ => {
             eprintln!("usage: zh <pure> < cases");
             std::process::exit(2);
